@@ -174,7 +174,9 @@ def gen_trace(rng, strings, name=None, nentries=None, hostile=True):
 # -- history log -------------------------------------------------------------------
 def gen_fields(rng, n=None):
     n = rng.choice([0, 1, 2, 5, 12, 38, 80, 120]) if n is None else n
-    return [("hl_field_%d_%s" % (k, rng.choice(["a", "retries", "x_y"])), rng.choice([1, 2])) for k in range(n)]
+    dup = rng.random() < 0.2
+    return [("hl_field_%d_%s" % (k if not (dup and k % 3 == 2) else k - 1, rng.choice(["a", "retries", "x_y"]) if not dup else "a"),
+             rng.choice([1, 2])) for k in range(n)]
 
 
 def record_len(fields):
